@@ -1,4 +1,5 @@
 import SieveModel.Lemmas.Invariant
+import SieveModel.Lemmas.Lex
 /-!
 # Every token step keeps the invariant and never raises
 -/
@@ -235,7 +236,6 @@ theorem closeCommand_spec (s' : PState) (e' : Option (List TokKind)) (k : TokKin
   | nil => exact absurd rfl hne
   | cons f rest =>
     unfold closeCommand
-    simp only
     by_cases hk1 : (k == .left_cbracket) = true
     · simp only [hk1, if_true]
       by_cases hcond : (f.d.kind == .control && f.d.acceptChildren && Frame.complete f) = true
@@ -734,5 +734,753 @@ theorem bracketOpen_spec (s : PState) (e : Option (List TokKind)) (f : Frame) (r
           · intro h; simp [topVar, hpv] at h
       · simp only [hcm, Bool.not_false, if_true]
         exact unchanged
+
+end Safe
+
+namespace Safe
+open Machine Args ArgsSafe
+
+theorem ofCmdErr_good (k : TokKind) (rew : Bool) (e : CmdErr) (h : ∀ w, e ≠ .crash w) :
+    GoodRet k (ofCmdErr rew e) ∧ GoodRet k (thenCompl (ofCmdErr rew e)) := by
+  cases e with
+  | crash w => exact absurd rfl (h w)
+  | badValue a => simp [ofCmdErr, GoodRet, thenCompl]
+  | badArgument c => simp [ofCmdErr, GoodRet, thenCompl]
+  | extNotLoaded x => simp [ofCmdErr, GoodRet, thenCompl]
+
+theorem with_stack_args (s : PState) (hcs : s.cstate = .arguments) (st : List Frame) :
+    ({ s with stack := st } : PState) = { s with stack := st, cstate := .arguments } := by
+  obtain ⟨a1, a2, a3, a4, a5, a6, a7, a8⟩ := s
+  simp only at hcs
+  subst hcs
+  rfl
+
+theorem offer_compl_spec (s : PState) (e : Option (List TokKind)) (f : Frame) (rest : List Frame)
+    (hs : s.stack = f :: rest) (hcore : Core s e) (hcs : s.cstate = .arguments)
+    (hnv : f.d.variableArgs = false) (t : ArgType) (v : AVal) (hc : Consistent t v) (ht : t ≠ .test) (k : TokKind) :
+    GoodRet k (thenCompl (offer s t v)) := by
+  have hne : s.cstate ≠ .none := by rw [hcs]; simp
+  obtain ⟨c0, c1⟩ := curCheck_spec s f rest hs hcore.chain t v hc
+  unfold offer
+  cases hcc : curCheck s t v with
+  | error err =>
+    simp only
+    exact (ofCmdErr_good k false err (fun w hw => c0 w (by rw [hcc, hw]))).2
+  | ok r =>
+    obtain ⟨b, s2, pl⟩ := r
+    simp only
+    rcases c1 b s2 pl hcc with ⟨hbf, hs2⟩ | ⟨hbt, st', hcna, hs2⟩
+    · subst hbf; subst hs2
+      exact fun _ => ⟨⟨e, hcore⟩, hne⟩
+    · subst hbt
+      simp only [thenCompl]
+      rw [hs2, with_stack_args s hcs]
+      exact value_then_compl s f rest hs hcore.chain (hcore.cargs hcs) hcore.paren hnv t v hc ht st' pl hcna false k
+
+theorem tryReassign_spec (s : PState) (e : Option (List TokKind)) (f : Frame) (rest : List Frame)
+    (hs : s.stack = f :: rest) (hcore : Core s e) (hcs : s.cstate = .arguments) (k : TokKind) :
+    GoodRet k (thenCompl (tryReassign s)) := by
+  have hne : s.cstate ≠ .none := by rw [hcs]; simp
+  have hfalse : GoodRet k (thenCompl (.ret false s false)) := fun _ => ⟨⟨e, hcore⟩, hne⟩
+  have hch := hcore.chain
+  rw [hs] at hch
+  unfold tryReassign
+  rw [hs]
+  simp only
+  by_cases hnd : f.d.nonDet = true
+  · simp only [hnd, if_true]
+    cases hre : reassign f with
+    | none => exact hfalse
+    | some f' =>
+      simp only [thenCompl]
+      obtain ⟨hok', hd', ha'⟩ := reassign_ok f f' hch.head hre
+      have hkt : f.d.kind = .test := (cmdSafe_nondet f.d hch.head.1 (Or.inl hnd)).1
+      have hfv : f.d.variableArgs = false := by
+        cases hv : f.d.variableArgs with
+        | false => rfl
+        | true =>
+          obtain ⟨_, _, _, _, hn, _⟩ := cmdSafe_host f.d hch.head.1 (var_isHost _ hch.head.1 hv)
+          rw [hn] at hnd; simp at hnd
+      have hchain : Chain (f' :: rest) := hch.replace_top hok' hd' ha'
+      have hwt : withTop s f' = { s with stack := f' :: rest } := by simp [withTop, hs]
+      rw [hwt]
+      have hcm : cmds (f' :: rest) = cmds s.stack := by rw [hs, cmds_cons, cmds_cons, hd']
+      have hvr : vars (f' :: rest) = vars s.stack := by rw [hs, vars_cons, vars_cons, hd']
+      apply complThen_spec { s with stack := f' :: rest } f' rest rfl hchain hcs (by simp only; rw [hcm]; exact hcore.cargs hcs)
+        (by simp only; rw [hvr]; exact hcore.paren)
+      · refine ⟨?_, ?_⟩ <;> intro h <;> simp [topVar, hd', hfv] at h
+      · exact Or.inl (by rw [hd']; exact hkt)
+      · intro _; exact Or.inr (reassign_once f f' hre)
+  · simp only [hnd, Bool.false_eq_true, if_false]
+    exact hfalse
+
+theorem argThenCompl_spec (s : PState) (e : Option (List TokKind)) (f : Frame) (rest : List Frame)
+    (hs : s.stack = f :: rest) (hcore : Core s e) (hcs : s.cstate = .arguments)
+    (hnv : f.d.variableArgs = false) (k : TokKind) (text : Bytes) :
+    GoodRet k (argThenCompl s k text) := by
+  have hne : s.cstate ≠ .none := by rw [hcs]; simp
+  have hfalse : GoodRet k (thenCompl (.ret false s false)) := fun _ => ⟨⟨e, hcore⟩, hne⟩
+  unfold argThenCompl argumentFn
+  cases k with
+  | string =>
+    simp only
+    split
+    · simp [thenCompl, GoodRet]
+    · exact offer_compl_spec s e f rest hs hcore hcs hnv .string _ (consistent_string _) (by simp) _
+  | multiline =>
+    simp only
+    split
+    · simp [thenCompl, GoodRet]
+    · exact offer_compl_spec s e f rest hs hcore hcs hnv .string _ (consistent_string _) (by simp) _
+  | number => exact offer_compl_spec s e f rest hs hcore hcs hnv .number _ (consistent_number _) (by simp) _
+  | tag => exact offer_compl_spec s e f rest hs hcore hcs hnv .tag _ (consistent_tag _) (by simp) _
+  | left_bracket =>
+    simp only [thenCompl]
+    exact bracketOpen_spec s e f rest hs hcore hcs (openList s) rfl rfl rfl rfl _
+  | left_cbracket => exact tryReassign_spec s e f rest hs hcore hcs _
+  | comma => exact tryReassign_spec s e f rest hs hcore hcs _
+  | right_parenthesis => exact tryReassign_spec s e f rest hs hcore hcs _
+  | semicolon => exact hfalse
+  | right_bracket => exact hfalse
+  | left_parenthesis => exact hfalse
+  | right_cbracket => exact hfalse
+  | hash_comment => exact hfalse
+  | bracket_comment => exact hfalse
+  | identifier => exact hfalse
+
+end Safe
+
+namespace Safe
+open Machine Args ArgsSafe
+
+theorem pushTest_spec (T : Table) (hT : TableSafe T) (s : PState) (e : Option (List TokKind)) (f : Frame)
+    (rest : List Frame) (hs : s.stack = f :: rest) (hcore : Core s e) (hcs : s.cstate = .arguments)
+    (text : Bytes) (k : TokKind) : GoodRet k (pushTest T s text) := by
+  have hne : s.cstate ≠ .none := by rw [hcs]; simp
+  have hch := hcore.chain
+  have hch' := hch
+  rw [hs] at hch'
+  unfold pushTest
+  cases hget : getCommand T s.loaded text with
+  | error err => simp [GoodRet]
+  | ok d =>
+    simp only
+    have hdsafe : cmdSafe d = true := hT d (getCommand_mem T _ _ _ d hget)
+    by_cases hdt : (d.kind != .test) = true
+    · simp [hdt, GoodRet]
+    · simp only [hdt, Bool.false_eq_true, if_false]
+      have hdk : d.kind = .test := by simpa using hdt
+      obtain ⟨c0, c1⟩ := curCheck_spec s f rest hs hch .test (.test (.mk d.name [] [] [] [])) (consistent_test_node _)
+      cases hcc : curCheck s .test (.test (.mk d.name [] [] [] [])) with
+      | error err =>
+        simp only
+        exact (ofCmdErr_good k false err (fun w hw => c0 w (by rw [hcc, hw]))).1
+      | ok r =>
+        obtain ⟨b, s1, pl⟩ := r
+        rcases c1 b s1 pl hcc with ⟨hbf, hs1⟩ | ⟨hbt, st', hcna, hs1⟩
+        · subst hbf; subst hs1
+          exact fun _ => ⟨⟨e, hcore⟩, hne⟩
+        · subst hbt
+          simp only
+          subst hs1
+          simp only
+          obtain ⟨hhost, hdone, hpl⟩ := test_accept_host f.d hch'.head.1 s.loaded f.st _ true true hch'.head.2 st' pl hcna
+          obtain ⟨_, _, _, hka, hnd, _⟩ := cmdSafe_host f.d hch'.head.1 hhost
+          have hok1 : FrameOK { f with st := st' } :=
+            ⟨hch'.head.1, checkNextArg_StOK f.d hch'.head.1 s.loaded f.st .test _ true true hch'.head.2
+              (consistent_test_node _) st' pl hcna⟩
+          have hch1 : Chain ({ f with st := st' } :: rest) := hch'.replace_top hok1 rfl rfl
+          have hlow : LowerOK { f with st := st' } := ⟨hdone, hnd, hka⟩
+          have hnew : FrameOK { d := d, attach := .place pl } := ⟨hdsafe, StOK.init d⟩
+          have hchain : Chain ({ d := d, attach := .place pl } :: { f with st := st' } :: rest) :=
+            ⟨hnew, by intro pl' h; simp at h; subst h; exact hpl, hlow, fun h => absurd hdk h, hch1⟩
+          have hcm : cmds ({ d := d, attach := .place pl } :: { f with st := st' } :: rest) = cmds s.stack := by
+            rw [hs, cmds_cons, cmds_cons, cmds_cons]; simp [hdk]
+          have hvr : vars ({ d := d, attach := .place pl } :: { f with st := st' } :: rest)
+              = (if d.variableArgs then 1 else 0) + vars s.stack := by
+            rw [hs, vars_cons, vars_cons, vars_cons]
+          apply complThen_spec ⟨s.result, s.comments, { d := d, attach := .place pl } :: { f with st := st' } :: rest, s.cstate, s.curlist, d.expectedFirst, s.brackets, s.loaded⟩
+            { d := d, attach := .place pl } ({ f with st := st' } :: rest) rfl hchain hcs
+            (by simp only; rw [hcm]; exact hcore.cargs hcs)
+            (by simp only; rw [hvr]; have := hcore.paren; omega)
+          · refine ⟨?_, ?_⟩
+            · intro htv _
+              simp only [topVar] at htv
+              simp only
+              rw [hvr, htv]
+              have := hcore.paren
+              simp; omega
+            · intro htv _
+              simp only [topVar] at htv
+              exact Or.inl (cmdSafe_var d hdsafe htv).2
+          · exact Or.inl hdk
+          · intro h; simp at h
+
+theorem record_fields (s : PState) (f : Frame) (rest : List Frame) :
+    (record s f rest).cstate = s.cstate ∧ (record s f rest).brackets = s.brackets := by
+  unfold record; split <;> exact ⟨rfl, rfl⟩
+
+theorem closeParen_spec (s : PState) (e : Option (List TokKind)) (f : Frame) (rest : List Frame)
+    (hs : s.stack = f :: rest) (hcore : Core s e) (hcs : s.cstate = .arguments) (k : TokKind) :
+    GoodRet k (closeParen s) := by
+  unfold closeParen
+  cases hpop : popBracket s .right_parenthesis with
+  | none => simp [GoodRet]
+  | some s1 =>
+    simp only
+    obtain ⟨b, hb, hs1⟩ := popBracket_some s s1 _ hpop
+    have hpar := hcore.paren
+    have hlive := hcore.cargs hcs
+    rw [hb] at hpar hlive
+    simp at hpar hlive
+    have hch := hcore.chain
+    rw [hs] at hch
+    have hft : f.d.kind = .test := hch.top_test (by rw [← hs]; omega)
+    obtain ⟨u1, u2, u3, u4, u5⟩ := upLoop_spec f rest hch
+    have hst1 : s1.stack = f :: rest := by rw [hs1]; exact hs
+    unfold up
+    rw [hst1]
+    simp only
+    obtain ⟨r1, r2⟩ := record_fields s1 f rest
+    have hcmds : cmds (upLoop f rest).1 = cmds s.stack := by rw [u2, hs, cmds_cons]; simp [hft]
+    have hvars : vars s.stack ≤ vars (upLoop f rest).1 + 1 := by
+      rw [u3, hs, vars_cons]; split <;> omega
+    have hb1 : s1.brackets = b := by rw [hs1]
+    have hc1 : s1.cstate = .arguments := by rw [hs1]; exact hcs
+    refine ⟨⟨core_args _ _ u1 (by simp only; rw [r1, hc1]) ?_ ?_, ⟨?_, ?_⟩⟩, by simp⟩
+    · simp only; rw [r2, hb1, hcmds]; exact hlive
+    · simp only; rw [r2, hb1]; omega
+    · intro htv hex
+      simp only at htv hex
+      cases hst : (upLoop f rest).1 with
+      | nil => rw [hst] at htv; simp [topVar] at htv
+      | cons g r =>
+        rw [hst] at htv
+        simp only [topVar] at htv
+        have := (u4 g (by rw [hst]; rfl)).2
+        rw [this, htv] at hex
+        simp at hex
+    · intro htv _
+      simp only at htv ⊢
+      cases hst : (upLoop f rest).1 with
+      | nil => rw [hst] at htv; simp [topVar] at htv
+      | cons g r =>
+        rw [hst] at htv
+        simp only [topVar] at htv
+        have := (u4 g (by rw [hst]; rfl)).2
+        rw [this, htv]
+        simp
+
+end Safe
+
+namespace Safe
+open Machine Args ArgsSafe
+
+theorem argumentsFn_spec (T : Table) (hT : TableSafe T) (s : PState) (e : Option (List TokKind)) (k : TokKind)
+    (text : Bytes) (hcore : Core s e) (htop : Top s e) (hcs : s.cstate = .arguments)
+    (hk : ∀ ex, e = some ex → k ∈ ex) : GoodRet k (argumentsFn T s k text) := by
+  have hne : s.cstate ≠ .none := by rw [hcs]; simp
+  obtain ⟨f, rest, hs⟩ := List.exists_cons_of_ne_nil (hcore.nonempty hne)
+  have hch := hcore.chain
+  rw [hs] at hch
+  -- a variable-arity test on top admits only `(`, an identifier, `,` or `)`
+  have hvar_tok : f.d.variableArgs = true →
+      (k = .left_parenthesis ∧ e = some [.left_parenthesis]) ∨ k = .identifier ∨ k = .comma ∨ k = .right_parenthesis := by
+    intro hv
+    have htv : topVar s.stack = true := by rw [hs]; exact hv
+    rcases htop.topv htv hcs with h | h | h
+    · have := hk _ h; simp at this; exact Or.inl ⟨this, h⟩
+    · have := hk _ h; simp at this; exact Or.inr (Or.inl this)
+    · have := hk _ h; simp at this
+      rcases this with h1 | h1
+      · exact Or.inr (Or.inr (Or.inl h1))
+      · exact Or.inr (Or.inr (Or.inr h1))
+  have other : (k ≠ .left_parenthesis ∧ k ≠ .identifier ∧ k ≠ .comma ∧ k ≠ .right_parenthesis) →
+      GoodRet k (argThenCompl s k text) := by
+    intro ⟨n1, n2, n3, n4⟩
+    have hnv : f.d.variableArgs = false := by
+      cases hv : f.d.variableArgs with
+      | false => rfl
+      | true =>
+        rcases hvar_tok hv with ⟨h, _⟩ | h | h | h
+        · exact absurd h n1
+        · exact absurd h n2
+        · exact absurd h n3
+        · exact absurd h n4
+    exact argThenCompl_spec s e f rest hs hcore hcs hnv k text
+  have hcargs' : liveRcb s.brackets + 1 ≤ cmds (f :: rest) := by rw [← hs]; exact hcore.cargs hcs
+  have hparen' : rps s.brackets ≤ vars (f :: rest) := by rw [← hs]; exact hcore.paren
+  unfold argumentsFn
+  rw [hs]
+  simp only
+  cases k with
+  | identifier => exact pushTest_spec T hT s e f rest hs hcore hcs text _
+  | left_parenthesis =>
+    simp only
+    by_cases hv : f.d.variableArgs = true
+    · simp only [hv, if_true]
+      have he : e = some [.left_parenthesis] := by
+        rcases hvar_tok hv with ⟨_, h⟩ | h | h | h <;> simp_all
+      have htv : topVar s.stack = true := by rw [hs]; exact hv
+      have hopen := htop.open_ htv he
+      rw [hs] at hopen
+      refine ⟨⟨core_args _ _ hch hcs (by simpa using hcargs') (by simpa using hopen), ⟨?_, ?_⟩⟩, by simp⟩
+      · intro _ h; simp at h
+      · intro _ _; exact Or.inr (Or.inl rfl)
+    · simp only [hv, Bool.false_eq_true, if_false]
+      exact argThenCompl_spec s e f rest hs hcore hcs (by simpa using hv) _ text
+  | comma =>
+    simp only
+    by_cases hv : f.d.variableArgs = true
+    · simp only [hv, if_true]
+      refine ⟨⟨core_args _ _ hch hcs hcargs' hparen', ⟨?_, ?_⟩⟩, by simp⟩
+      · intro _ h; simp at h
+      · intro _ _; exact Or.inr (Or.inl rfl)
+    · simp only [hv, Bool.false_eq_true, if_false]
+      exact argThenCompl_spec s e f rest hs hcore hcs (by simpa using hv) _ text
+  | right_parenthesis =>
+    simp only
+    by_cases hnd : f.d.nonDet = true
+    · simp only [hnd, if_true]
+      have hnv : f.d.variableArgs = false := by
+        cases hv : f.d.variableArgs with
+        | false => rfl
+        | true =>
+          obtain ⟨_, _, _, _, hn, _⟩ := cmdSafe_host f.d hch.head.1 (var_isHost _ hch.head.1 hv)
+          rw [hn] at hnd; simp at hnd
+      exact argThenCompl_spec s e f rest hs hcore hcs hnv _ text
+    · simp only [hnd, Bool.false_eq_true, if_false]
+      exact closeParen_spec s e f rest hs hcore hcs _
+  | string => exact other (by simp)
+  | multiline => exact other (by simp)
+  | number => exact other (by simp)
+  | tag => exact other (by simp)
+  | left_bracket => exact other (by simp)
+  | right_bracket => exact other (by simp)
+  | left_cbracket => exact other (by simp)
+  | right_cbracket => exact other (by simp)
+  | semicolon => exact other (by simp)
+  | hash_comment => exact other (by simp)
+  | bracket_comment => exact other (by simp)
+
+/-- what `__command` does with the answer of the state function -/
+theorem close_after (s : PState) (k : TokKind) (r : FnResult) (h : GoodRet k r) :
+    match (match r with
+           | .ret false s' rew => closeCommand s' k rew
+           | r => r) with
+    | .ret true s2 rew => Inv s2 ∧ (rew = true → Calm s2)
+    | .crash _ => False
+    | _ => True := by
+  cases r with
+  | ret b s' rew =>
+    cases b with
+    | true => exact h
+    | false =>
+      simp only
+      by_cases hkk : k = .left_cbracket ∨ k = .semicolon
+      · obtain ⟨⟨e', hc'⟩, hne'⟩ := h hkk
+        have h2 := closeCommand_spec s' e' k rew hc' hne'
+        split at h2
+        · exact ⟨h2.1, fun _ => Or.inl h2.2⟩
+        · exact h2
+        · trivial
+      · have h1 : (k == .left_cbracket) = false := by
+          cases k <;> simp at hkk ⊢
+        have h2 : (k == .semicolon) = false := by
+          cases k <;> simp at hkk ⊢
+        unfold closeCommand
+        simp [h1, h2]
+  | err e rew => trivial
+  | crash w => exact h
+
+/-- one call of `__command` -/
+theorem commandFn_spec (T : Table) (hT : TableSafe T) (s : PState) (e : Option (List TokKind)) (k : TokKind)
+    (text : Bytes) (hcore : Core s e) (htop : Top s e) (hk : ∀ ex, e = some ex → k ∈ ex) :
+    match commandFn T s k text with
+    | .ret true s2 rew => Inv s2 ∧ (rew = true → Calm s2)
+    | .crash _ => False
+    | _ => True := by
+  unfold commandFn
+  cases hcs : s.cstate with
+  | none =>
+    simp only
+    have := startCommand_spec T hT s e k text hcore hcs
+    split at this
+    · exact ⟨this.1, fun h => by rw [this.2] at h; simp at h⟩
+    · exact this
+    · trivial
+  | arguments =>
+    simp only
+    have hst : stateFn T s k text = argumentsFn T s k text := by unfold stateFn; rw [hcs]
+    rw [hst]
+    exact close_after s k _ (argumentsFn_spec T hT s e k text hcore htop hcs hk)
+  | stringlist =>
+    simp only
+    have hst : stateFn T s k text = stringlistFn s k text := by unfold stateFn; rw [hcs]
+    rw [hst]
+    exact close_after s k _ (stringlistFn_spec s e k text hcore hcs hk)
+
+end Safe
+
+namespace Safe
+open Machine Args ArgsSafe
+
+/-! ## a token is re-delivered at most once -/
+
+def isRew (r : FnResult) : Bool :=
+  match r with
+  | .ret _ _ true => true
+  | _ => false
+
+theorem isRew_ofCmdErr (rew : Bool) (e : CmdErr) : isRew (ofCmdErr rew e) = false := by
+  cases e <;> rfl
+
+theorem isRew_complThen (s : PState) (ts rew : Bool) (h : isRew (complThen s ts rew) = true) : rew = true := by
+  unfold complThen at h
+  split at h
+  · rw [isRew_ofCmdErr] at h; simp at h
+  · cases rew with
+    | true => rfl
+    | false => simp [isRew] at h
+
+theorem isRew_thenCompl (r : FnResult) (h : isRew (thenCompl r) = true) : isRew r = true := by
+  unfold thenCompl at h
+  split at h
+  · rename_i s' rew
+    have := isRew_complThen _ _ _ h
+    subst this
+    rfl
+  · exact h
+
+theorem isRew_offer (s : PState) (t : ArgType) (v : AVal) : isRew (offer s t v) = false := by
+  unfold offer
+  split
+  · exact isRew_ofCmdErr _ _
+  · rfl
+
+def CanReassign (s : PState) : Prop :=
+  ∃ f rest f', s.stack = f :: rest ∧ f.d.nonDet = true ∧ reassign f = some f'
+
+theorem isRew_tryReassign (s : PState) (h : isRew (tryReassign s) = true) : CanReassign s := by
+  unfold tryReassign at h
+  split at h
+  · simp [isRew] at h
+  · rename_i f rest heq
+    split at h
+    · rename_i hnd
+      split at h
+      · simp [isRew] at h
+      · rename_i f' hre
+        exact ⟨f, rest, f', heq, hnd, hre⟩
+    · simp [isRew] at h
+
+theorem isRew_argThenCompl (s : PState) (k : TokKind) (text : Bytes) (h : isRew (argThenCompl s k text) = true) :
+    CanReassign s := by
+  unfold argThenCompl at h
+  have h2 := isRew_thenCompl _ h
+  have hoff : ∀ t v, isRew (if (!Utf8.valid text) = true then FnResult.err PErr.decodeError false else offer s t v) = false := by
+    intro t v; split
+    · rfl
+    · exact isRew_offer s t v
+  cases k with
+  | string => simp only [argumentFn] at h2; rw [hoff] at h2; simp at h2
+  | multiline => simp only [argumentFn] at h2; rw [hoff] at h2; simp at h2
+  | number => simp only [argumentFn] at h2; rw [isRew_offer] at h2; simp at h2
+  | tag => simp only [argumentFn] at h2; rw [isRew_offer] at h2; simp at h2
+  | left_bracket => simp [argumentFn, isRew] at h2
+  | left_cbracket => exact isRew_tryReassign s h2
+  | comma => exact isRew_tryReassign s h2
+  | right_parenthesis => exact isRew_tryReassign s h2
+  | semicolon => simp [argumentFn, isRew] at h2
+  | right_bracket => simp [argumentFn, isRew] at h2
+  | left_parenthesis => simp [argumentFn, isRew] at h2
+  | right_cbracket => simp [argumentFn, isRew] at h2
+  | hash_comment => simp [argumentFn, isRew] at h2
+  | bracket_comment => simp [argumentFn, isRew] at h2
+  | identifier => simp [argumentFn, isRew] at h2
+
+theorem isRew_pushTest (T : Table) (s : PState) (text : Bytes) : isRew (pushTest T s text) = false := by
+  unfold pushTest
+  split
+  · rfl
+  · split
+    · rfl
+    · split
+      · exact isRew_ofCmdErr _ _
+      · rfl
+      · cases h : isRew (complThen _ false false) with
+        | false => rfl
+        | true => have := isRew_complThen _ _ _ h; simp at this
+
+theorem isRew_closeParen (s : PState) : isRew (closeParen s) = false := by
+  unfold closeParen
+  split
+  · rfl
+  · split <;> rfl
+
+theorem isRew_argumentsFn (T : Table) (s : PState) (k : TokKind) (text : Bytes)
+    (h : isRew (argumentsFn T s k text) = true) : CanReassign s := by
+  unfold argumentsFn at h
+  split at h
+  · simp [isRew] at h
+  · split at h
+    · rw [isRew_pushTest] at h; simp at h
+    · split at h
+      · simp [isRew] at h
+      · exact isRew_argThenCompl s _ text h
+    · split at h
+      · simp [isRew] at h
+      · exact isRew_argThenCompl s _ text h
+    · split at h
+      · exact isRew_argThenCompl s _ text h
+      · rw [isRew_closeParen] at h; simp at h
+    · exact isRew_argThenCompl s _ text h
+
+theorem isRew_stringlistFn (s : PState) (k : TokKind) (text : Bytes) : isRew (stringlistFn s k text) = false := by
+  unfold stringlistFn
+  split
+  · split <;> rfl
+  · rfl
+  · split
+    · rfl
+    · split
+      · exact isRew_ofCmdErr _ _
+      · rfl
+      · cases h : isRew (complThen _ true false) with
+        | false => rfl
+        | true => have := isRew_complThen _ _ _ h; simp at this
+  · rfl
+
+theorem isRew_startCommand (T : Table) (s : PState) (k : TokKind) (text : Bytes) :
+    isRew (startCommand T s k text) = false := by
+  unfold startCommand
+  split
+  · split
+    · rfl
+    · split <;> rfl
+  · split
+    · rfl
+    · split
+      · rfl
+      · split
+        · rfl
+        · split
+          · rfl
+          · unfold pushCommand
+            split
+            · rfl
+            · split <;> rfl
+
+theorem isRew_closeCommand (s' : PState) (k : TokKind) (rew : Bool) (h : isRew (closeCommand s' k rew) = true) :
+    rew = true := by
+  cases rew with
+  | true => rfl
+  | false =>
+    exfalso
+    unfold closeCommand at h
+    split at h
+    · split at h
+      · simp [isRew] at h
+      · split at h <;> simp [isRew] at h
+    · split at h
+      · split at h
+        · simp [isRew] at h
+        · split at h
+          · simp [isRew] at h
+          · split at h
+            · rw [isRew_ofCmdErr] at h; simp at h
+            · simp [isRew] at h
+            · split at h
+              · simp [isRew] at h
+              · simp only at h
+                split at h <;> simp [isRew] at h
+      · simp [isRew] at h
+
+theorem isRew_commandFn (T : Table) (s : PState) (k : TokKind) (text : Bytes)
+    (h : isRew (commandFn T s k text) = true) : s.cstate ≠ .none ∧ CanReassign s := by
+  unfold commandFn at h
+  split at h
+  · rw [isRew_startCommand] at h; simp at h
+  · rename_i hcs
+    refine ⟨by intro hc; exact hcs hc, ?_⟩
+    have key : isRew (stateFn T s k text) = true := by
+      split at h
+      · rename_i s' rew heq
+        have := isRew_closeCommand s' k rew h
+        subst this
+        rw [heq]; rfl
+      · exact h
+    unfold stateFn at key
+    split at key
+    · rw [isRew_stringlistFn] at key; simp at key
+    · exact isRew_argumentsFn T s k text key
+
+end Safe
+
+namespace Safe
+open Machine Args ArgsSafe
+
+theorem Core.congr {s s' : PState} {e} (h : Core s e) (h1 : s'.stack = s.stack) (h2 : s'.cstate = s.cstate)
+    (h3 : s'.brackets = s.brackets) : Core s' e :=
+  ⟨by rw [h1]; exact h.chain, by rw [h1, h2, h3]; exact h.cnone, by rw [h1, h2, h3]; exact h.cargs,
+   by rw [h1, h2, h3]; exact h.cstrl, by rw [h1, h3]; exact h.paren⟩
+
+theorem Top.congr {s s' : PState} {e} (h : Top s e) (h1 : s'.stack = s.stack) (h2 : s'.cstate = s.cstate)
+    (h3 : s'.brackets = s.brackets) : Top s' e :=
+  ⟨by rw [h1, h3]; exact h.open_, by rw [h1, h2]; exact h.topv⟩
+
+def GoodStep (r : StepResult) : Prop :=
+  match r with
+  | .ok s' => Inv s'
+  | .rewind s' => Inv s' ∧ Calm s'
+  | .crash _ => False
+  | .reject _ _ => True
+
+theorem ofFn_good (r : FnResult)
+    (h : match r with
+         | .ret true s2 rew => Inv s2 ∧ (rew = true → Calm s2)
+         | .crash _ => False
+         | _ => True) : GoodStep (ofFn r) := by
+  cases r with
+  | ret b s2 rew =>
+    cases b with
+    | true =>
+      cases rew with
+      | false => exact h.1
+      | true => exact ⟨h.1, h.2 rfl⟩
+    | false => trivial
+  | err e rew => trivial
+  | crash w => exact h
+
+theorem stepTok_spec (T : Table) (hT : TableSafe T) (s : PState) (k : TokKind) (text : Bytes) (hinv : Inv s) :
+    GoodStep (stepTok T s k text) := by
+  unfold stepTok admit
+  cases hexp : s.expected with
+  | none =>
+    simp only
+    have hc : Core s none := by rw [← hexp]; exact hinv.1
+    have ht : Top s none := by rw [← hexp]; exact hinv.2
+    exact ofFn_good _ (commandFn_spec T hT s none k text hc ht (by intro ex h; simp at h))
+  | some exp =>
+    simp only
+    by_cases hin : k ∈ exp
+    · simp only [hin, decide_true, if_true]
+      have hc : Core { s with expected := none } (some exp) := (hexp ▸ hinv.1).congr rfl rfl rfl
+      have ht : Top { s with expected := none } (some exp) := (hexp ▸ hinv.2).congr rfl rfl rfl
+      exact ofFn_good _ (commandFn_spec T hT { s with expected := none } (some exp) k text hc ht
+        (by intro ex h; simp at h; subst h; exact hin))
+    · simp only [hin, decide_false, Bool.false_eq_true, if_false]
+      trivial
+
+/-- the body of the token loop -/
+theorem step_spec (T : Table) (hT : TableSafe T) (s : PState) (tok : Tok) (hinv : Inv s) :
+    GoodStep (step T s tok) := by
+  unfold step
+  split
+  · exact ⟨hinv.1.congr rfl rfl rfl, hinv.2.congr rfl rfl rfl⟩
+  · exact hinv
+  · exact stepTok_spec T hT s _ _ hinv
+
+/-- out of a calm state the token is not sent back a second time -/
+theorem calm_no_rewind (T : Table) (s : PState) (tok : Tok) (hc : Calm s) (s2 : PState) :
+    step T s tok ≠ .rewind s2 := by
+  intro h
+  unfold step at h
+  split at h
+  · simp at h
+  · simp at h
+  · unfold stepTok at h
+    split at h
+    · simp at h
+    · rename_i s1 hadm
+      have hs1 : s1.stack = s.stack ∧ s1.cstate = s.cstate := by
+        unfold admit at hadm
+        split at hadm
+        · simp at hadm; subst hadm; exact ⟨rfl, rfl⟩
+        · split at hadm
+          · simp at hadm; subst hadm; exact ⟨rfl, rfl⟩
+          · simp at hadm
+      have hrew : isRew (commandFn T s1 tok.kind tok.text) = true := by
+        unfold ofFn at h
+        split at h <;> simp at h
+        rename_i heq
+        rw [heq]; rfl
+      obtain ⟨hne, f, rest, f', hst, hnd, hre⟩ := isRew_commandFn T s1 tok.kind tok.text hrew
+      rcases hc with hc | hc
+      · exact hne (by rw [hs1.2]; exact hc)
+      · rcases hc f (by rw [← hs1.1, hst]; rfl) with h1 | h1
+        · rw [h1] at hnd; simp at hnd
+        · rw [h1] at hre; simp at hre
+
+end Safe
+
+namespace Safe
+open Machine Args ArgsSafe
+
+/-- a verdict: neither an unexpected exception nor a livelock -/
+def Verdict (o : Outcome) : Prop := (∀ w, o ≠ .crash w) ∧ o ≠ .hang
+
+theorem deliver_spec (T : Table) (hT : TableSafe T) (s : PState) (tok : Tok) (hinv : Inv s) :
+    match deliver T s tok with
+    | .ok s' => Inv s'
+    | .error o => Verdict o := by
+  have h1 := step_spec T hT s tok hinv
+  unfold deliver
+  cases hst : step T s tok with
+  | ok s' => rw [hst] at h1; exact h1
+  | reject e rew => simp only; exact ⟨by intro w h; simp at h, by simp⟩
+  | crash w => rw [hst] at h1; exact absurd h1 (by simp [GoodStep])
+  | rewind s' =>
+    rw [hst] at h1
+    simp only
+    have h2 := step_spec T hT s' tok h1.1
+    cases hst2 : step T s' tok with
+    | ok s'' => rw [hst2] at h2; exact h2
+    | reject e rew => simp only; exact ⟨by intro w h; simp at h, by simp⟩
+    | crash w => rw [hst2] at h2; exact absurd h2 (by simp [GoodStep])
+    | rewind s'' => exact absurd hst2 (calm_no_rewind T s' tok h1.2 s'')
+
+theorem feed_spec (T : Table) (hT : TableSafe T) (toks : List Tok) (s : PState) (n : Nat) (hinv : Inv s) :
+    match feed T toks s n with
+    | .stop o => Verdict o
+    | .done s' _ => Inv s' := by
+  induction toks generalizing s n with
+  | nil => exact hinv
+  | cons tok rest ih =>
+    unfold feed
+    have h := deliver_spec T hT s tok hinv
+    cases hd : deliver T s tok with
+    | error o => rw [hd] at h; exact h
+    | ok s' => rw [hd] at h; exact ih s' _ h
+
+theorem finish_verdict (s : PState) (e n : Nat) : Verdict (finish s e n) := by
+  unfold finish
+  refine ⟨?_, ?_⟩
+  · intro w; repeat' split
+    all_goals simp
+  · repeat' split
+    all_goals simp
+
+theorem run_verdict (T : Table) (hT : TableSafe T) (endPos : Nat) (lexErr : Option (Nat × Bytes)) (toks : List Tok) :
+    Verdict (run T endPos lexErr toks {} 0) := by
+  unfold run
+  have h := feed_spec T hT toks {} 0 Inv.init
+  cases hf : feed T toks {} 0 with
+  | stop o => rw [hf] at h; exact h
+  | done s' n =>
+    simp only
+    split
+    · exact ⟨by intro w h; simp at h, by simp⟩
+    · exact finish_verdict _ _ _
+
+/-- **`Parser.parse` always ends with a verdict**: for every command table satisfying `TableSafe` and
+    every input, the outcome is an acceptance or a located rejection — never an exception other than
+    the parser's own, never a token delivered for ever -/
+theorem parse_verdict (T : Table) (hT : TableSafe T) (text : Bytes) (prev : PState) :
+    Verdict (parse T text prev) := by
+  unfold parse
+  obtain ⟨r, hr, _⟩ := Lex.lex_total text
+  rw [hr]
+  exact run_verdict T hT _ _ _
 
 end Safe
